@@ -36,7 +36,8 @@ def gen_scenario(rng):
     rng.shuffle(order)
 
     def gap():
-        return rng.choice([0, 50, 200, 400, 1000, 3000, 10000, 10000, 400000, 1500000, 2300000, 3000000, 3300000, 4000000])
+        # (around 120 s the host records of an announcement heard earlier have expired but may not have been purged yet)
+        return rng.choice([0, 50, 200, 400, 1000, 3000, 10000, 10000, 119000, 122000, 124000, 127000, 400000, 1500000, 2300000, 3000000, 3300000, 4000000])
     browsers = []
     for b in range(rng.randint(1, 3)):
         browsers.append(dict(host=rng.randrange(nh), types=rng.sample(types, rng.randint(1, ntypes))))
@@ -56,8 +57,24 @@ def gen_scenario(rng):
     closed = set()
     last_touch = {}
     t = max(t, max(o[0] for o in ops if o[1] == 'register') + 1000)      # changes to a service only after its registration has completed
-    for _ in range(rng.choice([0, 0, 1, 2, 3])):
-        kind = rng.choice(['unregister', 'unregister', 'update', 'close'])
+    for _ in range(rng.choice([0, 0, 1, 2, 3, 4])):
+        kind = rng.choice(['unregister', 'unregister', 'update', 'close', 'reregister'])
+        if kind == 'reregister':
+            # a service that was withdrawn comes back (same instance name, same host)
+            cands = [i for i in last_touch if i not in registered and svcs[i]['host'] not in closed]
+            if not cands:
+                kind = 'unregister'
+            else:
+                i = rng.choice(cands)
+                if t - last_touch[i] < 1000 and rng.random() > 0.1:
+                    t = last_touch[i] + 1000
+                elif rng.random() < 0.5:
+                    t = max(ops[-1][0], min(t, last_touch[i] + rng.choice([1000, 2000, 5000, 9000])))      # churn: back within seconds
+                last_touch[i] = t
+                registered.append(i)
+                ops.append((t, 'register', i))
+                t += gap()
+                continue
         if kind == 'close':
             cands = [h for h in range(nh) if h not in closed and not any(b['host'] == h for b in browsers)]
             if not cands:
@@ -371,6 +388,17 @@ def run(ctx):
         corpus.append(dict(nh=2, svcs=[s0], browsers=[dict(host=1, types=[TYPES[0]])],
                            ops=[(1000, 'register', 0), (B0, 'browse', 0), (B0 + gap, 'unregister', 0)], end=B0 + 60000, seed=300 + gap, dup=0.0,
                            drop=None, lookups=False, adversary='late-advertisements', fq=20))
+    # churn, then a long quiet time: a service comes, goes and comes back within a few seconds while a browser is watching, and nothing
+    # else happens for longer than the pointer's lifetime - the browser alone must keep the instance alive through its refresh queries
+    for (t_un, t_re) in ((3000, 5000), (2500, 9000)):
+        corpus.append(dict(nh=2, svcs=[s0], browsers=[dict(host=1, types=[TYPES[0]])],
+                           ops=[(500, 'browse', 0), (1000, 'register', 0), (t_un, 'unregister', 0), (t_re, 'register', 0)], end=t_re + 5200000,
+                           seed=400 + t_un, dup=0.0, drop=None, lookups=True))
+    # a browser created while the pointer of a registered instance has expired in its host's cache but has not been reaped yet (the cleanup
+    # runs every 10 s): repaired defect C07-expired-unpurged-browser (repro/c07_expired_unpurged_browser.py)
+    for tb in (4502000, 4505000, 4509000):
+        corpus.append(dict(nh=2, svcs=[s0], browsers=[dict(host=1, types=[TYPES[0]])], ops=[(1000, 'register', 0), (tb, 'browse', 0)],
+                           end=tb + 60000, seed=7, dup=0.0, drop=None, lookups=True))
     for k in range(n + len(corpus)):
         sc = corpus[k] if k < len(corpus) else gen_scenario(rng)
         runs, fail = explore(ctx, sc, 10 ** 6 if sc['drop'] == 'all' else budget)
